@@ -29,6 +29,8 @@ type fieldSpec struct {
 	k        kindDef
 	off      int
 	embedded bool
+	second   bool   // embedded in a second anonymous struct at the same depth
+	goName   string // Go field name ("" = name): inner fields may share a name with an outer field or with a field of the other embedded struct
 	fixed    string // value tag text ("" = none); only for u8 fields
 	fixedVal int
 }
@@ -37,13 +39,19 @@ type fieldSpec struct {
 func buildType(code int, codeTag string, fields []fieldSpec) reflect.Type {
 	top := []reflect.StructField{{Name: "MsgType", Type: rtMsgType, Tag: reflect.StructTag(fmt.Sprintf(`uhppote:"value:%s"`, codeTag))}}
 	emb := []reflect.StructField{}
+	emb2 := []reflect.StructField{}
 	for _, f := range fields {
 		tag := fmt.Sprintf(`uhppote:"offset:%d"`, f.off)
 		if f.fixed != "" {
 			tag = fmt.Sprintf(`uhppote:"offset:%d, value:%s"`, f.off, f.fixed)
 		}
 		sf := reflect.StructField{Name: f.name, Type: f.k.typ, Tag: reflect.StructTag(tag)}
-		if f.embedded {
+		if f.goName != "" {
+			sf.Name = f.goName
+		}
+		if f.embedded && f.second {
+			emb2 = append(emb2, sf)
+		} else if f.embedded {
 			emb = append(emb, sf)
 		} else {
 			top = append(top, sf)
@@ -59,22 +67,47 @@ func buildType(code int, codeTag string, fields []fieldSpec) reflect.Type {
 		}
 		top = append(top[:pos], append([]reflect.StructField{in}, top[pos:]...)...)
 	}
+	if len(emb2) > 0 {
+		top = append(top, reflect.StructField{Name: "Other", Type: reflect.StructOf(emb2), Anonymous: true})
+	}
 	return reflect.StructOf(top)
 }
 
-func walkAll(v reflect.Value, fn func(name string, f reflect.Value)) {
+func walkAll(v reflect.Value, fn func(name string, f reflect.Value)) { walkIn(v, "", fn) }
+
+// walkIn: fields are named by the anonymous struct they sit in + their Go name ("Inner.A"; top-level: "A")
+func walkIn(v reflect.Value, in string, fn func(name string, f reflect.Value)) {
 	t := v.Type()
 	for i := 0; i < t.NumField(); i++ {
 		sf := t.Field(i)
 		if sf.Anonymous && sf.Type.Kind() == reflect.Struct {
-			walkAll(v.Field(i), fn)
+			walkIn(v.Field(i), sf.Name+".", fn)
 			continue
 		}
 		if sf.Type == rtMsgType || sf.Type == rtSOM {
 			continue
 		}
-		fn(sf.Name, v.Field(i))
+		fn(in+sf.Name, v.Field(i))
 	}
+}
+
+// keyOf: the specification's name of a field, from where it sits in the Go struct
+func keyOf(fields []fieldSpec) func(string) string {
+	m := map[string]string{}
+	for _, f := range fields {
+		g := f.name
+		if f.goName != "" {
+			g = f.goName
+		}
+		switch {
+		case f.embedded && f.second:
+			g = "Other." + g
+		case f.embedded:
+			g = "Inner." + g
+		}
+		m[g] = f.name
+	}
+	return func(path string) string { return m[path] }
 }
 
 // nil pointers stand for the kind's zero "no value"
@@ -121,7 +154,9 @@ func layoutRecord(rng *rand.Rand, code int, codeTag string, fields []fieldSpec, 
 			fixed[f.name] = f
 		}
 	}
-	walkAll(msgv, func(name string, f reflect.Value) {
+	key := keyOf(fields)
+	walkAll(msgv, func(path string, f reflect.Value) {
+		name := key(path)
 		if fx, ok := fixed[name]; ok {
 			vals[name] = fx.fixedVal // emitted from the tag whatever the field holds
 			f.SetUint(uint64(rng.Intn(256)))
@@ -164,14 +199,14 @@ func layoutRecord(rng *rand.Rand, code int, codeTag string, fields []fieldSpec, 
 			return
 		}
 		pv := M{}
-		walkAll(out.Elem(), func(name string, f reflect.Value) { pv[name] = projLayoutField(f) })
+		walkAll(out.Elem(), func(path string, f reflect.Value) { pv[key(path)] = projLayoutField(f) })
 		rec["dec"] = M{"t": "ok", "v": pv}
 		// decoded values share no memory with the input buffer
 		for i := range in {
 			in[i] = 0xee
 		}
 		pv2 := M{}
-		walkAll(out.Elem(), func(name string, f reflect.Value) { pv2[name] = projLayoutField(f) })
+		walkAll(out.Elem(), func(path string, f reflect.Value) { pv2[key(path)] = projLayoutField(f) })
 		rec["aliased"] = fmt.Sprint(pv) != fmt.Sprint(pv2)
 	}); p {
 		rec["dec"] = M{"t": "panic", "msg": msg}
@@ -268,7 +303,31 @@ func runC18(o *opts) (*summary, error) {
 				for b := off; b < off+k.w; b++ {
 					used[b] = true
 				}
-				fields = append(fields, fieldSpec{name: fmt.Sprintf("F%d", j), k: k, off: off, embedded: rng.Intn(4) == 0})
+				fs := fieldSpec{name: fmt.Sprintf("F%d", j), k: k, off: off, embedded: rng.Intn(4) == 0}
+				fs.second = fs.embedded && rng.Intn(3) == 0
+				// Go names: an inner field may carry the name of an outer field or of a field in the other embedded struct
+				// (a legal layout: the offsets are what the codec goes by); names stay unique within one struct
+				if i%3 == 0 && len(fields) > 0 && rng.Intn(2) == 0 {
+					o := fields[rng.Intn(len(fields))]
+					g := o.name
+					if o.goName != "" {
+						g = o.goName
+					}
+					clash := false
+					for _, x := range fields {
+						xg := x.name
+						if x.goName != "" {
+							xg = x.goName
+						}
+						if x.embedded == fs.embedded && x.second == fs.second && (xg == g || x.name == g) {
+							clash = true
+						}
+					}
+					if !clash && (o.embedded != fs.embedded || o.second != fs.second) {
+						fs.goName = g
+					}
+				}
+				fields = append(fields, fs)
 				break
 			}
 		}
